@@ -21,6 +21,9 @@ type c08Case struct {
 	Routing string        `json:"routing"`         // none | aen | aeb
 	Via     string        `json:"via"`             // walk | crew
 	Shape   int           `json:"shape,omitempty"` // what "emit m2" emits: index into c08Shapes
+	// Perm: the machine carries permanent bindings (which the engine puts back after every action - without losing
+	// what the action emitted)
+	Perm bool `json:"perm,omitempty"`
 }
 
 // what an action may emit: anything JSON; a message is a message whatever its content
@@ -58,7 +61,9 @@ func shaped(p *actlang.Prog, shape int) *actlang.Prog {
 
 func c08Programs(maxLen int) []*actlang.Prog {
 	nonterm := []Op{{K: actlang.Emit, V: M{"m": 1.0}}, {K: actlang.Emit, V: M{"m": 2.0}}, {K: actlang.Set, A: "x", V: 1.0}}
-	terms := []Op{{K: actlang.Throw}, {K: actlang.ThrowVal, A: "object"}, {K: actlang.ThrowVal, A: "error"}, {K: actlang.ThrowVal, A: "null"}, {K: actlang.RetScalar}, {K: actlang.RetArray}, {K: actlang.Spin}, {K: actlang.EmitBad, A: "nan"}, {K: actlang.RetNull}}
+	terms := []Op{{K: actlang.Throw}, {K: actlang.ThrowVal, A: "object"}, {K: actlang.ThrowVal, A: "error"}, {K: actlang.ThrowVal, A: "null"}, {K: actlang.RetScalar}, {K: actlang.RetArray}, {K: actlang.Spin}, {K: actlang.EmitBad, A: "nan"}, {K: actlang.RetNull},
+		// endings that succeed while replacing the bindings wholesale (what was emitted before them counts)
+		{K: actlang.RetFresh, V: M{"fresh": true}}, {K: actlang.RetFresh, V: M{"next": "a3", "conf!": "other"}}, {K: actlang.RetEmpty}}
 	var out []*actlang.Prog
 	var prefixes [][]Op
 	level := [][]Op{{}}
@@ -138,6 +143,9 @@ func (n *nullCouplings) Stop(context.Context) error                             
 func c08Run(cs c08Case) (clause, detail string, emits int) {
 	as := c08Spec(cs)
 	start := M{"next": "a2"}
+	if cs.Perm {
+		start = M{"next": "a2", "conf!": "tacos", "keep!": M{"k": []interface{}{1.0}}}
+	}
 	msgs := []interface{}{M{"go": 1.0}}
 	rw, ok := as.Walk("start", start, msgs, 100, "")
 	if !ok {
@@ -318,7 +326,7 @@ func C08(c *vh.Ctx) {
 	if c.Shard == 0 {
 		c.Count("programs", int64(len(progs)))
 	}
-	c.Rule("every ECMAScript program = prefix over {emit m1, emit m2, set} (for programs of up to 3 operations m2 also ranges over 13 message shapes: maps with an emit / to / error key, messages addressed to the host's captain and timers machines, strings, numbers, arrays, empty and nested maps, booleans) (any order, up to the bound) optionally ended by one of {throw a string, throw an object with properties, throw an Error, throw null, return scalar, return array, loop until cancelled (cancel delivered at tick 3 through the harness context), emit an unserialisable value, return null}; placed as the action at position 1, 2 or 3 of a chain of three emitting actions, or as the guard between them; error routing none / ActionErrorNode / ActionErrorBranches (the handler emits and resumes the chain); observed through Spec.Walk (per-stride Emitted and DoEmitted) and through sio.Crew.ProcessMsg (Result.Emitted); oracle: emitted == concatenation of the emits of the successfully completed actions in execution order. Plus long cascades through a crew (3 to 130 walks, one or two emissions per walk, next to a machine that emits and then fails): Result.Emitted must be, batch by batch, what each walk emitted. non-trivial = program emits and then fails.")
+	c.Rule("every ECMAScript program = prefix over {emit m1, emit m2, set} (for programs of up to 3 operations m2 also ranges over 13 message shapes: maps with an emit / to / error key, messages addressed to the host's captain and timers machines, strings, numbers, arrays, empty and nested maps, booleans) (any order, up to the bound) optionally ended by one of {throw a string, throw an object with properties, throw an Error, throw null, return scalar, return array, loop until cancelled (cancel delivered at tick 3 through the harness context), emit an unserialisable value, return null, return fresh bindings, return empty bindings}; placed as the action at position 1, 2 or 3 of a chain of three emitting actions, or as the guard between them; error routing none / ActionErrorNode / ActionErrorBranches (the handler emits and resumes the chain); observed through Spec.Walk (per-stride Emitted and DoEmitted) and through sio.Crew.ProcessMsg (Result.Emitted); oracle: emitted == concatenation of the emits of the successfully completed actions in execution order; every case also for a machine that carries permanent bindings. Plus long cascades through a crew (3 to 130 walks, one or two emissions per walk, next to a machine that emits and then fails): Result.Emitted must be, batch by batch, what each walk emitted. non-trivial = program emits and then fails.")
 	var idx uint64
 	for _, p := range progs {
 		for pos := 0; pos <= 3; pos++ {
@@ -338,6 +346,9 @@ func C08(c *vh.Ctx) {
 					}
 					cs := c08Case{Prog: p, Pos: pos, Routing: routing, Via: via}
 					c08One(c, cs)
+					cs.Perm = true
+					c08One(c, cs)
+					cs.Perm = false
 					emitsM2 := false
 					for _, o := range p.Ops {
 						if o.K == actlang.Emit && rstep.Canon(o.V) == rstep.Canon(M{"m": 2.0}) {
